@@ -549,7 +549,7 @@ func adversarySearch(c *harn.Ctx, r *harn.Result, roles []string, typed bool, de
 			}
 			pr.finish()
 			for _, a := range acts {
-				if !c.Deadline.IsZero() && time.Now().After(c.Deadline) {
+				if c.Expired() {
 					r.Exhaustive, r.Cap = false, "time budget"
 					return
 				}
